@@ -2,6 +2,7 @@
 // Unprivileged ISA" (RV32I/RV64I base formats ch. 2/5, "M" ch. 7, "D" ch. 12, "Zicsr" ch. 9, "C" ch. 16).
 #include "rv64emu.hpp"
 #include <cstring>
+#include <cstdio>
 #include <xmmintrin.h>
 #include <emmintrin.h>
 
@@ -318,6 +319,7 @@ Stop Machine::run(uint64_t entry, uint64_t maxInsns) {
 				FORM(CSRRW);
 				uint32_t old = frm;
 				frm = (uint32_t)(x[rs1] & 7);
+				if (traceCsr) fprintf(stderr, "  [rv64emu] insn #%llu pc %016llx: frm %u -> %u (x%u = %016llx)\n", (unsigned long long)icount, (unsigned long long)pc, old, frm, rs1, (unsigned long long)x[rs1]);
 				RD((uint64_t)old);
 				if (frm <= 3) _mm_setcsr(mxcsrFor(frm));
 				// frm = 4 (RMM) or reserved 5..7: legal to write; the next dynamically-rounded operation stops the machine
